@@ -300,6 +300,10 @@ func (g *genCtx) genReq(http bool) string {
 	if g.phase3 {
 		var mf, mp, mt, mv []string
 		add := func(f, p, ty, v string) {
+			// now and then the value is not a string: a number or a bool (no string matcher matches those)
+			if r.Chance(1, 25) {
+				ty, v = wire.Pick(r, []string{"n", "b"}), wire.Pick(r, []string{"42", "1", "true", "0"})
+			}
 			mf, mp, mt, mv = append(mf, f), append(mp, p), append(mt, ty), append(mv, v)
 		}
 		const jwt = "envoy.filters.http.jwt_authn"
